@@ -270,6 +270,8 @@ type c16World struct {
 	byStr  map[string]*c16Addr
 	byPeer map[peer.ID]int64
 	port   int
+	// mostly usable public addresses (they need dial data unless the IP happens to be the observed one)
+	pressure bool
 }
 
 func (w *c16World) mkAddr(r *verifh.Rand, p peer.ID) *c16Addr {
@@ -285,6 +287,9 @@ func (w *c16World) mkAddr(r *verifh.Rand, p peer.ID) *c16Addr {
 		return "/ip4/" + ip.s, ""
 	}
 	kind := r.Intn(16)
+	if w.pressure && !r.Chance(1, 6) {
+		kind = 0
+	}
 	switch {
 	case kind < 6: // public IP, TCP: usable
 		k := r.Intn(6)
@@ -361,11 +366,22 @@ type c16Open struct {
 	plan  []c16Msg // dial-data messages still to send
 	after int      // what the client does when the plan is exhausted: 0 wait, 1 close
 	asked bool
+	// a stream whose client has not sent its first message yet
+	late        bool
+	lateWire    []byte
+	lateGood    int64
+	lateEntries []*c16Addr
 }
 
 func c16Session(t *testing.T, out *verifh.Out, r *verifh.Rand, steps int) {
 	var rpm, pp, dd, mc int
-	if r.Chance(1, 4) {
+	// pressure: a tight dial-data limit with room for concurrent requests, few peers, requests that
+	// mostly need dial data, many of them overlapping and stalled
+	pressure := r.Chance(1, 3)
+	if pressure {
+		rpm, pp, dd, mc = 20+r.Intn(40), 10+r.Intn(20), r.Intn(3), 1+r.Intn(3)
+		out.Cover("session.config.tight_dial_data_limit")
+	} else if r.Chance(1, 4) {
 		s := defaultSettings()
 		rpm, pp, dd, mc = s.serverRPM, s.serverPerPeerRPM, s.serverDialDataRPM, s.maxConcurrentRequestsPerPeer
 	} else {
@@ -407,6 +423,10 @@ func c16Session(t *testing.T, out *verifh.Out, r *verifh.Rand, steps int) {
 
 	w := &c16World{out: out, log: lg, srv: srv, sw: sw, byStr: map[string]*c16Addr{}, byPeer: map[peer.ID]int64{}}
 	npeers := 1 + r.Intn(3)
+	if pressure {
+		npeers = 1 + r.Intn(2)
+	}
+	w.pressure = pressure
 	for i := 0; i < npeers; i++ {
 		p := test.RandPeerIDFatal(t)
 		w.peers = append(w.peers, p)
@@ -518,15 +538,52 @@ func c16Session(t *testing.T, out *verifh.Out, r *verifh.Rand, steps int) {
 		line = append(line, stim...)
 		line = append(line, nev)
 		line = append(line, evs...)
+		// the limiter's own in-progress counters, for the conformance comparison only
+		line = append(line, int64(len(w.peers)))
+		srv.limiter.mu.Lock()
+		for _, p := range w.peers {
+			line = append(line, int64(srv.limiter.inProgressReqs[p]))
+		}
+		srv.limiter.mu.Unlock()
 		for _, p := range w.peers {
 			sw.Backoff().Clear(p)
 		}
 	}
 
+	// settle a stimulus that carries a request; afterwards fill in n = NumBytes of the
+	// DialDataRequest the server sent for it in this step (position nPos of the stimulus)
+	settleReq := func(stim []int64, nPos int, sid int64) {
+		before := len(line)
+		settle(stim)
+		i := before + len(stim)
+		nev := line[i]
+		i++
+		for k := int64(0); k < nev; k++ {
+			switch line[i] {
+			case 10:
+				i += 4
+			case 11:
+				if line[i+1] == sid {
+					line[before+nPos] = line[i+3]
+				}
+				i += 4
+			case 12:
+				i += 3
+			case 13:
+				i += 2
+			default:
+				panic("verif: bad event encoding")
+			}
+		}
+	}
+
 	for step := 0; step < steps; step++ {
 		choice := r.Intn(10)
+		if pressure && len(openOrder) < 5 && r.Chance(1, 3) {
+			choice = 0 // keep requests arriving while others are stalled
+		}
 		switch {
-		case len(openOrder) == 0 || (choice < 2 && len(openOrder) < 4):
+		case len(openOrder) == 0 || (choice < 2 && len(openOrder) < 6):
 			// clock: sometimes a real pause while nothing is open
 			if len(openOrder) == 0 && r.Chance(1, 3) {
 				var d time.Duration
@@ -557,18 +614,20 @@ func c16Session(t *testing.T, out *verifh.Out, r *verifh.Rand, steps int) {
 			st := newC16Stream(sid, w.peers[pi], w.obs[pi], lg)
 			var entries []*c16Addr
 			good := int64(1)
+			late := r.Chance(1, 4) // the client opens the stream and sends its request later
+			var wire []byte
 			switch k := r.Intn(20); {
 			case k == 0: // not a DialRequest
 				good = 0
 				m := &pb.Message{Msg: &pb.Message_DialResponse{DialResponse: &pb.DialResponse{}}}
 				b, _ := proto.Marshal(m)
-				st.clientWrite(append(c16Uvarint(uint64(len(b))), b...))
+				wire = append(c16Uvarint(uint64(len(b))), b...)
 				out.Cover("session.request.wrong_message_type")
 			case k == 1: // garbage
 				good = 0
-				st.clientWrite(append(c16Uvarint(6), 0xff, 0xff, 0xff, 0xff, 0xff, 0xff))
+				wire = append(c16Uvarint(6), 0xff, 0xff, 0xff, 0xff, 0xff, 0xff)
 				out.Cover("session.request.garbage")
-			case k == 2: // nothing at all
+			case k == 2 && !late: // nothing at all
 				good = 0
 				st.clientClose()
 				out.Cover("session.request.eof")
@@ -582,11 +641,27 @@ func c16Session(t *testing.T, out *verifh.Out, r *verifh.Rand, steps int) {
 				if err != nil {
 					panic(err)
 				}
-				st.clientWrite(append(c16Uvarint(uint64(len(b))), b...))
+				wire = append(c16Uvarint(uint64(len(b))), b...)
 			}
 			open[sid] = &c16Open{st: st, peer: pi}
 			openOrder = append(openOrder, sid)
 			t0 := nowNs()
+			if late {
+				o := open[sid]
+				o.late, o.lateWire, o.lateGood, o.lateEntries = true, wire, good, entries
+				wg.Add(1)
+				go func() {
+					defer wg.Done()
+					srv.serveDialRequest(st)
+				}()
+				settle([]int64{5, sid, pi, w.obsIP[pi], t0})
+				out.Cover("session.requests")
+				out.Cover("session.request.stream_opened_request_withheld")
+				continue
+			}
+			if wire != nil {
+				st.clientWrite(wire)
+			}
 			wg.Add(1)
 			go func() {
 				defer wg.Done()
@@ -596,34 +671,23 @@ func c16Session(t *testing.T, out *verifh.Out, r *verifh.Rand, steps int) {
 			for _, a := range entries {
 				stim = append(stim, a.aid, a.cls, a.ip)
 			}
-			nPos := 6
-			before := len(line)
-			settle(stim)
-			// n = NumBytes of the DialDataRequest, if the server sent one in this step
-			evStart := before + len(stim) + 1
-			for i := evStart; i < len(line); {
-				switch line[i] {
-				case 10:
-					i += 4
-				case 11:
-					if line[i+1] == sid {
-						line[before+nPos] = line[i+3]
-					}
-					i += 4
-				case 12:
-					i += 3
-				case 13:
-					i += 2
-				default:
-					panic("verif: bad event encoding")
-				}
-			}
+			settleReq(stim, 6, sid)
 			out.Cover("session.requests")
 		case choice < 9 || !r.Chance(1, 4):
 			// next client action on an open stream
 			sid := openOrder[r.Intn(len(openOrder))]
 			o := open[sid]
-			if len(o.plan) > 0 {
+			if o.late && r.Chance(3, 4) {
+				// the withheld request is sent now
+				o.late = false
+				o.st.clientWrite(o.lateWire)
+				stim := []int64{6, sid, nowNs(), o.lateGood, 0, int64(len(o.lateEntries))}
+				for _, a := range o.lateEntries {
+					stim = append(stim, a.aid, a.cls, a.ip)
+				}
+				settleReq(stim, 4, sid)
+				out.Cover("session.request.withheld_request_sent")
+			} else if len(o.plan) > 0 {
 				m := o.plan[0]
 				o.plan = o.plan[1:]
 				o.st.clientWrite(m.wire)
